@@ -78,11 +78,14 @@ type c15Case struct {
 	Host    string      `json:"host"`
 	Headers [][2]string `json:"headers"` // as sent, in order (without Host and the body framing header)
 	Body    string      `json:"-"`
-	BodyRep string      `json:"body"`             // the body itself, or "sha256:<hex>:<length>" for a large one
-	BareQ   bool        `json:"bare_q,omitempty"` // the target ends in a '?' without a query
-	TLS     bool        `json:"tls,omitempty"`    // the client talks TLS to heimdall
-	Keep    bool        `json:"keep,omitempty"`   // use (and leave behind) a kept-alive connection of the same peer
-	Reused  bool        `json:"reused,omitempty"` // the request went over a connection an earlier case left behind
+	BodyRep string      `json:"body"`               // the body itself, or "sha256:<hex>:<length>" for a large one
+	BareQ   bool        `json:"bare_q,omitempty"`   // the target ends in a '?' without a query
+	TLS     bool        `json:"tls,omitempty"`      // the client talks TLS to heimdall
+	SessPos int         `json:"sess_pos,omitempty"` // position in a session: requests 1.. go through the SAME rule instance as request 0
+	SessLen int         `json:"sess_len,omitempty"`
+	Variant bool        `json:"variant,omitempty"` // the path is another spelling of the previous request's path
+	Keep    bool        `json:"keep,omitempty"`    // use (and leave behind) a kept-alive connection of the same peer
+	Reused  bool        `json:"reused,omitempty"`  // the request went over a connection an earlier case left behind
 	Chunked bool        `json:"chunked"`
 	Setting string      `json:"setting"` // off | on | no_decode
 	Up      int         `json:"up"`      // 0 plain upstream, 1 TLS upstream
@@ -220,6 +223,9 @@ type c15Sys struct {
 	localhostOK bool // "localhost" resolves to 127.0.0.1
 
 	keep map[string]*c15Kept // kept-alive client connections by (service, peer, tls)
+
+	sessRule    rule.Rule // the rule instance of the running session
+	sessRuleKey string
 }
 
 type c15Kept struct {
@@ -521,9 +527,19 @@ func (s *c15Sys) buildRule(c *c15Case) (rule.Rule, error) {
 func (s *c15Sys) run(c *c15Case) c15Out {
 	s.oracles(c)
 
-	rul, err := s.buildRule(c)
-	if err != nil {
-		return c15Out{Kind: "error", Err: "rule: " + err.Error()}
+	// one rule (hence one Backend / URLRewriter instance) per session: what is forwarded for a
+	// request must not depend on the requests the same instance served before
+	rkey := vf.KeyOf([]any{c.Setting, c.UpHost, c.Rw})
+
+	rul := s.sessRule
+	if c.SessPos == 0 || rul == nil || s.sessRuleKey != rkey {
+		var err error
+
+		if rul, err = s.buildRule(c); err != nil {
+			return c15Out{Kind: "error", Err: "rule: " + err.Error()}
+		}
+
+		s.sessRule, s.sessRuleKey = rul, rkey
 	}
 
 	c15.mu.Lock()
@@ -783,6 +799,91 @@ func c15FreshName(r *vf.Rand) string {
 	}
 
 	return string(b)
+}
+
+// c15Variant spells the same DECODED path differently: every byte may come
+// literally or as an escape in either hex case (reserved ones too: %2F vs /,
+// %3B vs ;, %5B vs [), bytes that cannot be literal stay escaped.
+func c15Variant(r *vf.Rand, raw string) string {
+	dec, err := url.PathUnescape(raw)
+	if err != nil || dec == "" {
+		return raw
+	}
+
+	p := vf.Pick(r, []int{10, 30, 60})
+
+	var sb strings.Builder
+
+	for i := 0; i < len(dec); i++ {
+		b := dec[i]
+		must := b == '%' || b == '?' || b == '#' || b <= 0x20 || b >= 0x7f
+
+		if i > 0 && (must || r.Chance(p)) {
+			hex := "0123456789ABCDEF"
+			if r.Bool() {
+				hex = "0123456789abcdef"
+			}
+
+			sb.WriteByte('%')
+			sb.WriteByte(hex[b>>4])
+			sb.WriteByte(hex[b&15])
+		} else {
+			sb.WriteByte(b)
+		}
+	}
+
+	return sb.String()
+}
+
+// genSession draws 1..5 requests that go through ONE rule instance, one after the
+// other.  The followers keep the rule and the peer of the first request; their
+// path is mostly another spelling of the previous request's path (equal after
+// percent-decoding), sometimes the same bytes, sometimes a new path.
+func (s *c15Sys) genSession(r *vf.Rand) []c15Case {
+	first := s.gen(r.Fork(0))
+
+	n := 1
+	if r.Chance(45) {
+		n = r.Range(2, 5)
+	}
+
+	out := []c15Case{first}
+
+	for j := 1; j < n; j++ {
+		rj := r.Fork(uint64(j))
+		prev := out[j-1]
+		c := s.gen(rj)
+
+		c.Setting, c.Rw, c.Up, c.UpHost = first.Setting, first.Rw, first.Up, first.UpHost
+		c.Srv, c.Peer, c.TLS = first.Srv, first.Peer, first.TLS
+
+		// the view's path and scheme are the request's own
+		kept := c.Headers[:0]
+
+		for _, h := range c.Headers {
+			if k := c15CanonKey(h[0]); k != "X-Forwarded-Uri" && k != "X-Forwarded-Proto" {
+				kept = append(kept, h)
+			}
+		}
+
+		c.Headers = kept
+
+		switch x := rj.Intn(100); {
+		case x < 65:
+			c.Raw = c15Variant(rj, prev.Raw)
+			c.Variant = c.Raw != prev.Raw
+		case x < 80:
+			c.Raw = prev.Raw
+		}
+
+		out = append(out, c)
+	}
+
+	for j := range out {
+		out[j].SessPos, out[j].SessLen = j, len(out)
+	}
+
+	return out
 }
 
 func c15GenSeg(r *vf.Rand) string {
@@ -1186,6 +1287,14 @@ func c15Tags(c *c15Case, o c15Out) ([]string, bool) {
 		tags = append(tags, "conn:reused")
 	}
 
+	if c.SessPos > 0 {
+		tags = append(tags, "session:follower")
+	}
+
+	if c.Variant {
+		tags = append(tags, "session:other-spelling-of-previous-path")
+	}
+
 	if c.TLS {
 		tags = append(tags, "conn:tls")
 	}
@@ -1311,6 +1420,26 @@ func c15Tags(c *c15Case, o c15Out) ([]string, bool) {
 }
 
 // ---- corpus ------------------------------------------------------------------------------
+
+func c15CorpusSessions() [][]c15Case {
+	mk := func(rw *c15Rw, setting string, raws ...string) []c15Case {
+		var out []c15Case
+
+		for i, raw := range raws {
+			c := c15Case{Srv: 0, Peer: "127.0.0.2", Method: "GET", Raw: raw, Host: "h.example.com", Setting: setting, Rw: rw, Variant: i > 0}
+			out = append(out, c)
+		}
+
+		return out
+	}
+
+	return [][]c15Case{
+		mk(&c15Rw{Cut: "/api", Add: "/v1"}, "no_decode", "/api/files/a%2Fb", "/api/files/a/b", "/api/files/a%2fb", "/api/files/a%2Fb"),
+		mk(&c15Rw{Scheme: "http"}, "off", "/%61bc", "/abc", "/a%62c"),
+		mk(&c15Rw{StripQ: []string{"a"}}, "no_decode", "/x/[id]", "/x/%5Bid%5D", "/x/%5bid%5d", "/x/[id]"),
+		mk(nil, "no_decode", "/p%3Bq", "/p;q"),
+	}
+}
 
 func c15Corpus() []c15Case {
 	base := func(method, raw, query string) c15Case {
@@ -1513,7 +1642,36 @@ func TestVerifC15(t *testing.T) {
 		emit("corpus", c)
 	}
 
-	for i := 0; i < n; i++ {
-		emit("generated", s.gen(root.Fork(uint64(i))))
+	// corpus sessions: consecutive requests through one rule instance whose paths decode alike
+	for _, sess := range c15CorpusSessions() {
+		only := vf.Only()
+
+		for j := range sess {
+			sess[j].SessPos, sess[j].SessLen = j, len(sess)
+
+			if only >= 0 && only >= idx && only < idx+len(sess)-j && !vf.Want(idx) {
+				c := sess[j]
+				s.run(&c)
+			}
+
+			emit("corpus", sess[j])
+		}
+	}
+
+	nCorpus := idx
+
+	// generated sessions; to replay one case (VERIF_ONLY) its predecessors in the session are run, too
+	for si := 0; idx < nCorpus+n; si++ {
+		sess := s.genSession(root.Fork(uint64(si)))
+		only := vf.Only()
+
+		for j := range sess {
+			if only >= 0 && only >= idx && only < idx+len(sess)-j && !vf.Want(idx) {
+				c := sess[j]
+				s.run(&c) // a predecessor of the case to replay
+			}
+
+			emit("generated", sess[j])
+		}
 	}
 }
